@@ -1,15 +1,344 @@
-"""c18_findings - minimal inputs of the diagnosed C18 findings (enumerated cases of props/c18.py)"""
+"""c18_findings - the diagnosed C18 findings with their minimal inputs.
+
+* route_cases() / vpls_cases() / flow_cases(): the enumerated cases props/c18.py runs in every tier (one per root cause
+  and symptom), so that the set of signatures does not depend on the seed;
+* entries(): the same in the shape known_findings.json wants (status "known"), one entry per root cause with the fnmatch
+  patterns of all its signatures.
+
+    PYTHONPATH=/repo/src:/verif /venv/bin/python -m vlib.c18_findings            # prints the JSON entries
+    PYTHONPATH=/repo/src:/verif /venv/bin/python -m vlib.c18_findings patterns   # prints the patterns, comma separated (VERIF_C18_KNOWN)
+"""
 
 from __future__ import annotations
 
+import json
+import sys
+
+from vlib import c18_gen as gen
+
+NH = ['next-hop', 'next-hop 10.0.0.1']
+
+
+def _route(cl: list, fits, mutation: tuple | None, form: str = 'route', entry: str = 'parse_route_text', afi: int = 1, safi: int = 1, record: dict | None = None) -> dict:
+    m = {'kind': mutation[0], 'field': mutation[1], 'what': mutation[2]} if mutation else None
+    return gen.route_case(cl, form=form, entry=entry, afi=afi, safi=safi, fits=fits, mutation=m, record=record)
+
+
+def _rec(form: str, afi: int, safi: int, prefix: str, nexthop: str, attrs: dict, **more) -> dict:
+    rec = {'afi': afi, 'safi': safi, 'prefix': prefix, 'form': form, 'nexthop': nexthop, 'attrs': attrs}
+    rec.update(more)
+    rec['attr_order'] = [k for k in gen.ATTR_ORDER if k in attrs] + [k for k in ('watchdog', 'name') if k in rec]
+    return rec
+
+
+def _valid(rec: dict, entry: str) -> dict:
+    return gen.route_case(gen.clauses(rec), form=rec['form'], entry=entry, afi=rec['afi'], safi=rec['safi'], fits=True, mutation=None, record=rec)
+
+
+VPLS_BODY = [['endpoint', 'endpoint 5'], ['base', 'base 100'], ['offset', 'offset 1'], ['size', 'size 8']]
+
+
+def _vpls(body: list, fits, mutation: tuple, entry: str = 'api') -> dict:
+    return {'entry': entry, 'clauses': [['head', 'vpls']] + [list(c) for c in body], 'fits': fits, 'mutation': {'kind': mutation[0], 'field': mutation[1], 'what': mutation[2]}, 'record': None, 'near': True}
+
+
+P4 = ['prefix', 'route 10.0.0.0/24']
+F4 = ['prefix', 'ipv4 unicast 10.0.0.0/24']
+
+# (id, what, [signature patterns], engine, case) - the first case of an id is the one registered
+TABLE: list = []
+
+
+def _add(fid: str, what: str, patterns: list, engine: str, cases: list, more: list | None = None) -> None:
+    """cases run in `engine`; more = [(other engine, case)] for the same root cause seen through another engine"""
+    TABLE.append((fid, what, patterns, engine, cases, more or []))
+
+
+def _build() -> None:
+    if TABLE:
+        return
+    over = 'over-bound'
+    _add(
+        'C18-community-half-unchecked',
+        'static/parser.py _community compares each half of `a:b` with Community.MAX (2^32-1) instead of 65535: `community 65536:1` escapes as struct.error, `community 1:65536` is accepted and sent as 2:0',
+        ['parse:*:community:pair-high:error', 'parse:*:community:pair-low:error', 'accepted-unfit:*:community:pair-low'],
+        'route-text',
+        [
+            _route([P4, NH, ['community', 'community 65536:1']], False, (over, 'community', 'pair-high')),
+            _route([P4, NH, ['community', 'community 1:65536']], False, (over, 'community', 'pair-low')),
+            _route([P4, NH, ['community', 'community 65535:65536']], False, (over, 'community', 'pair-low')),
+        ],
+    )
+    _add(
+        'C18-large-community-part-unchecked',
+        'static/parser.py _large_community compares each part with LargeCommunity.MAX (96 bits) instead of 2^32-1: `large-community 4294967296:1:1` escapes as struct.error',
+        ['parse:*:large-community:part:error'],
+        'route-text',
+        [_route([P4, NH, ['large-community', 'large-community 4294967296:1:1']], False, (over, 'large-community', 'part'))],
+    )
+    _add(
+        'C18-extended-community-hex-length',
+        'static/parser.py _extended_community_hex does not check that the value is 8 octets: `0x0002` escapes as struct.error (IndexError for one octet), nine octets of a known type are accepted and cut to eight',
+        ['parse:*:extended-community:hex-length:*', 'accepted-unfit:*:extended-community:hex-length'],
+        'route-text',
+        [
+            _route([P4, NH, ['extended-community', 'extended-community 0x0002']], False, (over, 'extended-community', 'hex-length')),
+            _route([P4, NH, ['extended-community', 'extended-community 0x000200010000000100']], False, (over, 'extended-community', 'hex-length')),
+            _route([P4, NH, ['extended-community', 'extended-community 0x00']], False, (over, 'extended-community', 'hex-length')),
+        ],
+    )
+    _add(
+        'C18-malformed-address-oserror',
+        'IP.pton lets the OSError of inet_pton through and next_hop / originator_id / aggregator / prefix do not catch it: `next-hop 1.2.3.999`, `originator-id 1.2.3.999`, `aggregator ( 1:1.2.3.999 )`, `route 300.0.0.0/8` escape as OSError (cluster_list does catch it)',
+        ['parse:*:malformed-address:OSError', 'parse:*:prefix:malformed:OSError', 'parse:attributes:nlri:OSError@*', 'parse:vpls:next-hop:malformed:OSError', 'parse:flow:*:then-malformed:OSError'],
+        'route-text',
+        [
+            _route([P4, ['next-hop', 'next-hop 1.2.3.999']], False, ('malformed', 'next-hop', 'malformed-address')),
+            _route([P4, NH, ['originator-id', 'originator-id 1.2.3.999']], False, ('malformed', 'originator-id', 'malformed-address')),
+            _route([P4, NH, ['aggregator', 'aggregator ( 65000:1.2.3.999 )']], False, ('malformed', 'aggregator', 'malformed-address')),
+            _route([['prefix', 'route 300.0.0.0/8'], NH], False, ('malformed', 'prefix', 'malformed')),
+            _route([['head', 'attributes'], NH, ['nlri', 'nlri 10.0.0.0/24 300.0.0.0/8']], False, ('malformed', 'prefix', 'malformed'), form='attributes', entry='api'),
+            _route([F4, ['next-hop', 'next-hop 10.0.0.1'], ['aggregator', 'aggregator ( 65000:1.2.3.999 )']], False, ('malformed', 'aggregator', 'malformed-address'), form='family', entry='api'),
+        ],
+        [('vpls-text', _vpls([['rd', 'rd 1:1']] + VPLS_BODY + [['next-hop', 'next-hop 1.2.3.999']], False, ('malformed', 'next-hop', 'malformed')))],
+    )
+    _add(
+        'C18-path-information-wraps',
+        'PathInfo.make_from_integer keeps the low 32 bits: `path-information 4294967296` is accepted and sent as path id 0',
+        ['accepted-unfit:*:path-information:int'],
+        'route-text',
+        [_route([P4, ['path-information', 'path-information 4294967296'], NH], False, (over, 'path-information', 'int'))],
+    )
+    _add(
+        'C18-generic-attribute-code-flags-unchecked',
+        'static/parser.py attribute accepts a code or flags above 0xff: `attribute [ 0x100 0xc0 0x00 ]` / `[ 0x63 0x1c0 0x00 ]` are accepted, packing raises ValueError(bytes must be in range(0, 256))',
+        ['accepted-unfit:*:attribute:code', 'accepted-unfit:*:attribute:flags'],
+        'route-text',
+        [
+            _route([P4, NH, ['attribute', 'attribute [ 0x100 0xc0 0x00 ]']], False, (over, 'attribute', 'code')),
+            _route([P4, NH, ['attribute', 'attribute [ 0x63 0x1c0 0x00 ]']], False, (over, 'attribute', 'flags')),
+        ],
+    )
+    _add(
+        'C18-prefix-mask-not-a-number',
+        'static/parser.py prefix treats any ValueError of `ip, mask = split("/")` / int(mask) as "no mask given": `route 10.0.0.0/x` is accepted as 10.0.0.0/32 (and `attributes .. nlri 2001:db8::/x` escapes as Notify)',
+        ['accepted-unfit:*:prefix:malformed', 'parse:attributes:nlri:Notify@*'],
+        'route-text',
+        [
+            _route([['prefix', 'route 10.0.0.0/x'], NH], False, ('malformed', 'prefix', 'malformed')),
+            _route([['head', 'attributes'], ['next-hop', 'next-hop 2001:db8::1'], ['nlri', 'nlri 2001:db8::/x']], False, ('malformed', 'prefix', 'malformed'), form='attributes', entry='api', afi=2),
+        ],
+    )
+    _add(
+        'C18-rd-without-colon',
+        'static/mpls.py route_distinguisher: without a colon `prefix` is never bound: `rd 12` (or `rd` with nothing behind) escapes as UnboundLocalError, for route, `<afi> mpls-vpn`, attributes and vpls',
+        ['parse:*:rd:*:UnboundLocalError'],
+        'route-text',
+        [
+            _route([P4, ['rd', 'rd 12'], ['label', 'label 3'], NH], False, ('malformed', 'rd', 'malformed'), safi=128),
+            _route([['prefix', 'ipv4 mpls-vpn 10.0.0.0/24'], ['rd', 'rd 12'], ['label', 'label 3'], NH], False, ('malformed', 'rd', 'malformed'), form='family', entry='partial', safi=128),
+        ],
+        [
+            ('vpls-text', _vpls([['rd', 'rd 12']] + VPLS_BODY + [NH], False, ('malformed', 'rd', 'malformed'))),
+            ('vpls-text', _vpls([['rd', 'rd']] + VPLS_BODY + [NH], None, ('dropped-value', 'rd', 'dropped-value'))),
+        ],
+    )
+    _add(
+        'C18-announce-without-next-hop-label-rd',
+        'a definition without next-hop (or an `<afi> nlri-mpls` one without label, `mpls-vpn` without rd) is accepted by parse_route_text, the configuration file, api_announce_v4/v6 and api_attributes; UpdateCollection.messages() then raises ValueError (only the `announce route` command validates)',
+        ['accepted-unfit:*:next-hop:dropped-clause', 'accepted-unfit:*:label:dropped-clause', 'accepted-unfit:*:rd:dropped-clause'],
+        'route-text',
+        [
+            _route([P4, ['med', 'med 5']], False, ('dropped-clause', 'next-hop', 'dropped-clause'), entry='config-flat'),
+            _route([F4, ['med', 'med 5']], False, ('dropped-clause', 'next-hop', 'dropped-clause'), form='family', entry='api'),
+            _route([['prefix', 'ipv4 nlri-mpls 10.0.0.0/24'], NH], False, ('dropped-clause', 'label', 'dropped-clause'), form='family', entry='api', safi=4),
+            _route([['prefix', 'ipv4 mpls-vpn 10.0.0.0/24'], ['label', 'label 3'], NH], False, ('dropped-clause', 'rd', 'dropped-clause'), form='family', entry='api', safi=128),
+            _route([['head', 'attributes'], ['med', 'med 5'], ['nlri', 'nlri 10.0.0.0/24']], False, ('dropped-clause', 'next-hop', 'dropped-clause'), form='attributes', entry='api'),
+        ],
+    )
+    _add(
+        'C18-attributes-only-next-hop-self',
+        '`attributes next-hop self med 5` (no nlri) is accepted as an attributes-only route whose NextHopSelf is never resolved: packing raises ValueError(NextHopSelf.pack_attribute() called before resolve())',
+        ['encode:attributes:nlri:ValueError@*nexthop.py:pack_attribute'],
+        'route-text',
+        [_route([['head', 'attributes'], ['next-hop', 'next-hop self'], ['med', 'med 5'], ['nlri', 'nlri']], None, ('dropped-prefix', 'nlri', 'dropped-prefix'), form='attributes', entry='api')],
+    )
+    # ---- the `<afi> <safi>` form
+    base = {'form': 'family', 'afi': 1, 'safi': 1, 'prefix': '10.0.0.0/24', 'nexthop': '10.0.0.1'}
+    broken = [
+        ('originator-id', {'originator': '10.0.0.9'}, {}),
+        ('cluster-list', {'cluster_list': ['10.0.0.9']}, {}),
+        ('aigp', {'aigp': 5}, {}),
+        ('atomic-aggregate', {'atomic': True}, {}),
+        ('watchdog', {}, {'watchdog': 'dog'}),
+        ('name', {}, {'name': 'n1'}),
+        ('path-information', {}, {'path_id': 5, 'path_id_form': 'ip'}),
+    ]
+    _add(
+        'C18-family-form-raw-values',
+        'the schema validators of the `<afi> <safi>` form (announce/ip.py, path.py) return raw values (IP, int, str, bool) where an Attribute / PathInfo is needed: originator-id, cluster-list, aigp, atomic-aggregate (last clause), watchdog, name escape as AttributeError("... has no attribute ID"), path-information as AttributeError("pack_path")',
+        ['parse:family:originator-id:*', 'parse:family:cluster-list:*', 'parse:family:aigp:*', 'parse:family:atomic-aggregate:*', 'parse:family:watchdog:*', 'parse:family:name:*', 'parse:family:path-information:*'],
+        'route-text',
+        [_valid(_rec(attrs=dict(a), **dict(base, **more)), 'api') for _, a, more in broken],
+    )
+    _add(
+        'C18-family-form-atomic-aggregate-eats-next-token',
+        'FlagValidator reads a token: `ipv4 unicast P next-hop N atomic-aggregate med 5` is refused ("med is not valid for a presence flag")',
+        ['refused-valid:family:atomic-aggregate+next-clause'],
+        'route-text',
+        [_valid(dict(_rec(attrs={'atomic': True, 'med': 5}, **base), attr_order=['atomic', 'med']), 'partial')],
+    )
+    _add(
+        'C18-family-form-generic-attribute-refused',
+        '`attribute [ 0x99 0xc0 0x0102 ]` is refused in the `<afi> <safi>` form (HEX_STRING validator meets "["), and a bare hex string would raise AttributeError',
+        ['refused-valid:family:attribute'],
+        'route-text',
+        [_valid(_rec(attrs={'generic': [0x99, 0xC0, '0102']}, **base), 'partial')],
+    )
+    _add(
+        'C18-family-form-cluster-list-brackets-refused',
+        '`cluster-list [ a b ]` is refused in the `<afi> <safi>` form (IPAddressValidator meets "[")',
+        ['refused-valid:family:cluster-list'],
+        'route-text',
+        [_valid(_rec(attrs={'cluster_list': ['10.0.0.9', '10.0.0.8']}, **base), 'partial')],
+    )
+    _add(
+        'C18-family-form-multicast-refused',
+        '`ipv4 multicast` / `ipv6 multicast` use AnnounceIP.schema which has no settings_class: every definition is refused ("Schema must define settings_class and nlri_class")',
+        ['refused-valid:family:prefix'],
+        'route-text',
+        [_valid(_rec(attrs={}, **dict(base, safi=2, prefix='224.0.0.0/24')), 'api')],
+    )
+    _add(
+        'C18-family-form-prefix-of-other-afi',
+        'the `<afi> <safi>` form does not compare the AFI of the prefix with the family: `ipv4 unicast 2001:db8::/32` is accepted as 32.1.13.184/32, `ipv6 unicast 10.0.0.0/24` as a00::/24',
+        ['accepted-unfit:family:prefix:other-afi'],
+        'route-text',
+        [_route([['prefix', 'ipv4 unicast 2001:db8::/32'], NH], False, ('malformed', 'prefix', 'other-afi'), form='family', entry='api')],
+    )
+    # ---- the configuration file
+    _add(
+        'C18-config-block-errors-unlocated',
+        'static { route P { .. } }: the prefix is parsed in pre() and the NLRI built in post(), outside Section.parse: a bad prefix or an NLRI longer than 255 bits ends in reload()\'s catch-all, "problem parsing configuration file line <lines read so far>", without the line or the statement (as does every exception above)',
+        ['config:unlocated-error:route:*', 'config:unlocated-error:flow:*', 'config:unlocated-error:vpls:*'],
+        'route-text',
+        [
+            _route([['prefix', 'route 10.0.0.0/33'], NH], False, (over, 'prefix', 'mask'), entry='config-block'),
+            _route([['prefix', 'route 2001:db8::/128'], ['rd', 'rd 1:1'], ['label', 'label [ 1 2 3 ]'], ['next-hop', 'next-hop 2001:db8::1']], False, (over, 'label', 'nlri-length-over-255-bits'), entry='config-block', afi=2, safi=128),
+        ],
+    )
+    wrong_line = _route([P4, NH, ['med', 'med 4294967296']], False, (over, 'med', 'value'), entry='config-flat')
+    wrong_line['comments'] = 2
+    _add(
+        'C18-config-error-line-is-statement-count',
+        'the "line N" of a configuration error is Parser.number, the count of statements read, not the file line: any comment, blank line or two statements on a line make it wrong',
+        ['config:wrong-line-number'],
+        'route-text',
+        [wrong_line],
+    )
+    _add(
+        'C18-config-ipv6-route-mask-breaks-neighbor',
+        'the interned NetMask defect of C17 seen from C18: a valid IPv6 route whose mask equals the mask of the neighbor address (/32) makes the file be refused with "can only use ip ranges for the peer address with passive neighbors"',
+        ['refused-valid:config:ipv6-mask-equal-to-neighbor-mask'],
+        'route-text',
+        [_valid(_rec('route', 2, 1, '2001:db8::/32', '2001:db8::1', {}), 'config-flat')],
+    )
+    # ---- vpls
+    _add(
+        'C18-vpls-without-next-hop',
+        'a vpls definition without next-hop is accepted (VPLSSettings.validate does not ask for it); messages() raises ValueError(unexpected nlri definition)',
+        ['accepted-unfit:vpls:next-hop:dropped-clause'],
+        'vpls-text',
+        [_vpls([['rd', 'rd 1:1']] + VPLS_BODY, False, ('dropped-clause', 'next-hop', 'dropped-clause'))],
+    )
+    # ---- flow
+    def flow(match: list, then: list, fits, mutation: tuple, entry: str = 'api-block') -> dict:
+        return {'entry': entry, 'match': match, 'then': then, 'fits': fits, 'mutation': {'kind': mutation[0], 'field': mutation[1], 'what': mutation[2]}, 'near': True}
+
+    discard = [['discard', 'discard']]
+    _add(
+        'C18-flow-prefix-mask-unchecked',
+        'flow/parser.py source / destination do not check the mask: `destination 10.0.0.0/33` is accepted and sent with mask 33, `2001:db8::/129` is accepted and raises Notify when packed (in a configuration file: unlocated error)',
+        ['accepted-unfit:flow:*:mask-over', 'config:unlocated-error:flow:*:mask-over'],
+        'flow-text',
+        [
+            flow([['destination', 'destination 10.0.0.0/33']], discard, False, ('prefix', 'destination', 'mask-over')),
+            flow([['source', 'source 2001:db8::/129']], discard, False, ('prefix', 'source', 'mask-over')),
+            flow([['destination', 'destination 2001:db8::/129']], discard, False, ('prefix', 'destination', 'mask-over'), entry='config'),
+        ],
+    )
+    _add(
+        'C18-flow-malformed-prefix-dropped',
+        'flow/parser.py source / destination yield nothing for a text which is neither of their three shapes: `source 10.0.0/24` is accepted and the component silently left out (a broader rule is sent)',
+        ['accepted-unfit:flow:*:malformed-address'],
+        'flow-text',
+        [
+            flow([['destination', 'destination 10.0.0.0/24'], ['source', 'source 10.0.0/24']], discard, False, ('prefix', 'source', 'malformed-address')),
+            flow([['protocol', 'protocol =6'], ['destination', 'destination 10.0.0/24']], discard, False, ('prefix', 'destination', 'malformed-address')),
+        ],
+    )
+    _add(
+        'C18-flow-ipv6-offset-unchecked',
+        'an IPv6 flow prefix offset above the prefix length (or above 128) is accepted and sent: `destination 2001:db8::/32/33`, `/32/200`',
+        ['accepted-unfit:flow:*:offset-over'],
+        'flow-text',
+        [
+            flow([['destination', 'destination 2001:db8::/32/33']], discard, False, ('prefix', 'destination', 'offset-over')),
+            flow([['source', 'source 2001:db8::/32/200']], discard, False, ('prefix', 'source', 'offset-over')),
+        ],
+    )
+    _add(
+        'C18-flow-rate-limit-packets-unbounded',
+        '`rate-limit <n> packets` has no bound: a number above the float range escapes as struct.error("int too large to convert") / OverflowError',
+        ['parse:flow:rate-limit:rate-limit-packets:*'],
+        'flow-text',
+        [flow([['destination', 'destination 10.0.0.0/24']], [['rate-limit', 'rate-limit 10000000000000000000000000000000000000000 packets']], False, ('then-over', 'rate-limit', 'rate-limit-packets'), entry='api-flat')],
+    )
+    _add(
+        'C18-flow-malformed-address-oserror',
+        'flow: `redirect 1.2.3.999`, `copy 1.2.3`, `redirect-to-nexthop-ietf 1.2.3.999`, `destination 2001:db8::zz/32` escape as OSError (IP.pton, see C18-malformed-address-oserror)',
+        ['parse:flow:*:then-malformed:OSError', 'parse:flow:*:malformed-address:OSError'],
+        'flow-text',
+        [
+            flow([['destination', 'destination 10.0.0.0/24']], [['redirect', 'redirect 1.2.3.999']], None, ('then-malformed', 'redirect', 'then-malformed')),
+            flow([['destination', 'destination 10.0.0.0/24']], [['copy', 'copy 1.2.3']], None, ('then-malformed', 'copy', 'then-malformed')),
+            flow([['destination', 'destination 10.0.0.0/24']], [['redirect-to-nexthop-ietf', 'redirect-to-nexthop-ietf 1.2.3.999']], None, ('then-malformed', 'redirect-to-nexthop-ietf', 'then-malformed')),
+            flow([['destination', 'destination 2001:db8::zz/32']], discard, False, ('prefix', 'destination', 'malformed-address')),
+            flow([['source', 'source 2001:db8::zz/32']], discard, False, ('prefix', 'source', 'malformed-address')),
+        ],
+    )
+
+
+def _cases(engine: str) -> list:
+    _build()
+    out = [c for _, _, _, e, cases, _ in TABLE if e == engine for c in cases]
+    return out + [c for _, _, _, _, _, more in TABLE for e, c in more if e == engine]
+
 
 def route_cases() -> list:
-    return []
+    return _cases('route-text')
 
 
 def vpls_cases() -> list:
-    return []
+    return _cases('vpls-text')
 
 
 def flow_cases() -> list:
-    return []
+    return _cases('flow-text')
+
+
+def patterns() -> list:
+    _build()
+    return [p for _, _, pats, _, _, _ in TABLE for p in pats]
+
+
+def entries() -> list:
+    _build()
+    return [{'id': fid, 'property': 'C18', 'status': 'known', 'engine': engine, 'signature': pats[0], 'signatures': pats, 'what': what, 'case': cases[0]} for fid, what, pats, engine, cases, _ in TABLE]
+
+
+if __name__ == '__main__':
+    if sys.argv[1:] == ['patterns']:
+        print(','.join(patterns()))
+    else:
+        print(json.dumps(entries(), indent=1))
